@@ -180,7 +180,7 @@ def hook(rd, e, st, ctx):
             return out
     if k == 'MCall' and not e.get('inrepo'):
         name = e.get('m')
-        if name in ('transpose', 'col', 'row', 'head', 'norm', 'dot', 'cross', 'determinant', 'trace', 'x', 'y', 'z') or name in ('array', 'matrix', 'eval'):
+        if name in ('transpose', 'col', 'row', 'head', 'norm', 'squaredNorm', 'dot', 'cross', 'determinant', 'trace', 'x', 'y', 'z') or name in ('array', 'matrix', 'eval'):
             out = []
             for (ov, s2) in rd.ev(e['obj'], st, ctx):
                 if not isinstance(ov, sp.MatrixBase):
@@ -237,6 +237,8 @@ def _method(name, M, args):
         return sp.ImmutableMatrix(M[int(args[0]), :])
     if name == 'head' and len(args) == 1 and args[0].is_Integer:
         return sp.ImmutableMatrix(M[:int(args[0]), 0])
+    if name == 'squaredNorm' and not args:
+        return sum(x ** 2 for x in M)
     if name == 'norm':
         return sp.sqrt(sum(x ** 2 for x in M))
     if name == 'dot' and len(args) == 1 and isinstance(args[0], sp.MatrixBase):
